@@ -499,3 +499,48 @@ Example signal_read_except_nontrivial :
   read_under_write rinit [0; 0; 1]%nat = false /\ r_r (rrun rinit [0; 0; 1]%nat) = RDone 2
   /\ read_under_write rinit [0; 1]%nat = true.
 Proof. repeat split; reflexivity. Qed.
+
+(* ------------------------------------------------------------------------------------ *)
+(** * (f) read guards / synchronous reads vs the completion of a reload: BOUNDED sweeps
+    (two threads, every schedule of at most 12 slots) *)
+Fixpoint scheds2 (n : nat) : list (list nat) :=
+  match n with
+  | O => [[]]
+  | S k => flat_map (fun l => [0%nat :: l; 1%nat :: l]) (scheds2 k)
+  end.
+Lemma In_scheds2 l : Forall (fun t => (t < 2)%nat) l -> In l (scheds2 (length l)).
+Proof.
+  induction 1 as [|t l Ht Hl IH]; cbn; auto.
+  apply in_flat_map. exists l. split; auto.
+  destruct t as [|[|t]]; cbn; auto. lia.
+Qed.
+
+(** once thread 1 is done and the executor has nothing left to do, the store has happened:
+    the reader saw the old or the new value and the final value is the new one *)
+Definition h_quiet (s : hst) : bool := (h_p1 s =? 2)%nat && (h_p0 s =? 2)%nat && negb (h_dwoken s).
+Definition h_good (s : hst) : bool := (h_val s =? 2) && ((h_got s =? 1) || (h_got s =? 2)) && negb (h_wwait s).
+Definition d_quiet (s : dst) : bool := (d_p0 s =? 2)%nat && negb (d_p1 s =? 0)%nat.
+Definition d_good (s : dst) : bool := (d_p1 s =? 2)%nat && (d_val s =? 2) && ((d_got s =? 1) || (d_got s =? 2)).
+
+Lemma guard_sweep :
+  forallb (fun n => forallb (fun l => implb (h_quiet (hrun hinit l)) (h_good (hrun hinit l))
+                                      && implb (d_quiet (drun dinit l)) (d_good (drun dinit l)))
+                            (scheds2 n)) (seq 0 13) = true.
+Proof. vm_compute. reflexivity. Qed.
+
+Theorem guard_vs_reload_bounded :
+  forall sched, (length sched <= 12)%nat -> Forall (fun t => (t < 2)%nat) sched ->
+    (h_quiet (hrun hinit sched) = true -> h_good (hrun hinit sched) = true)
+    /\ (d_quiet (drun dinit sched) = true -> d_good (drun dinit sched) = true).
+Proof.
+  intros sched Hlen Hall. pose proof guard_sweep as S. rewrite forallb_forall in S.
+  assert (Hin : In (length sched) (seq 0 13)) by (apply in_seq; lia).
+  specialize (S _ Hin). rewrite forallb_forall in S.
+  specialize (S _ (In_scheds2 _ Hall)). apply andb_true_iff in S as [S0 S1].
+  split; intros Q; [rewrite Q in S0|rewrite Q in S1]; cbn in *; auto.
+Qed.
+
+Example guard_vs_reload_nontrivial :
+  h_wwait (hrun hinit [1; 0]%nat) = true /\ h_quiet (hrun hinit [1; 0; 0; 1; 0]%nat) = true
+  /\ d_p1 (drun dinit [0; 1]%nat) = 1%nat /\ d_quiet (drun dinit [0; 1; 0]%nat) = true.
+Proof. vm_compute. repeat split; reflexivity. Qed.
